@@ -146,6 +146,8 @@ pub struct Ctx {
     pub start: Instant,
     pub workers: usize,
     pub replayed: u64,
+    /// set when this process is an isolated child of a supervisor (see isolate.rs)
+    pub child: Option<crate::isolate::ChildInfo>,
 }
 
 pub fn stable_hash<T: Hash>(t: &T) -> u64 {
@@ -213,6 +215,7 @@ impl Ctx {
             start: Instant::now(),
             workers,
             replayed: 0,
+            child: crate::isolate::child_info(),
         }
     }
 
@@ -267,6 +270,13 @@ impl Ctx {
 
     pub fn finish(mut self) -> i32 {
         cleanup_scratch();
+        if let Some(c) = &self.child {
+            crate::isolate::write_partial(&self, &c.out);
+            return 0;
+        }
+        if self.extra.contains_key("child_machinery_failure") {
+            return 2;
+        }
         let wall = self.start.elapsed().as_secs_f64();
         let mut coverage = serde_json::Map::new();
         coverage.insert("evaluations".into(), json!(self.evaluations));
@@ -566,6 +576,8 @@ struct WorkerStats {
     samples: Vec<Value>,
     failure: Option<(Value, Fail)>,
     done_cases: u32,
+    /// failures whose signature is a listed known finding: counted, not shrunk, campaign goes on
+    known_hits: BTreeMap<String, u64>,
 }
 
 fn run_one<S, F>(
@@ -575,6 +587,7 @@ fn run_one<S, F>(
     strategy: &S,
     test: &F,
     want_samples: usize,
+    known_sigs: &[String],
 ) -> WorkerStats
 where
     S: Strategy,
@@ -599,9 +612,15 @@ where
         samples: vec![],
         failure: None,
         done_cases: 0,
+        known_hits: BTreeMap::new(),
     });
     let failed = RefCell::new(false);
+    let log_cases = std::env::var("VERIF_LOG_CASE").ok();
     let result = runner.run(strategy, |v| {
+        if let Some(p) = &log_cases {
+            // debugging aid: the case in flight survives an abort of the process
+            let _ = std::fs::write(p, serde_json::to_string(&v).unwrap_or_default());
+        }
         let r = test(&v);
         if *failed.borrow() {
             // shrinking phase: no counting
@@ -633,6 +652,14 @@ where
                         st.samples.push(j);
                     }
                 }
+                Ok(())
+            }
+            Err(f) if known_sigs.contains(&f.sig) => {
+                // a listed known finding: count it and continue the search behind it
+                let mut st = stats.borrow_mut();
+                st.done_cases += 1;
+                st.evaluations += 1;
+                *st.known_hits.entry(f.sig).or_default() += 1;
                 Ok(())
             }
             Err(f) => {
@@ -675,10 +702,17 @@ where
     F: Fn(&S::Value) -> CaseResult + Sync,
 {
     let workers = ctx.workers.max(1).min(cfg.cases.max(1) as usize);
-    let per = (cfg.cases as usize).div_ceil(workers) as u32;
+    // an isolated child runs its share of the cases on one thread
+    let (child_index, child_total, child_restart) = match &ctx.child {
+        Some(c) => (c.index as u64 + 1, c.total.max(1), c.restart as u64),
+        None => (0, 1, 0),
+    };
+    let per = ((cfg.cases as usize).div_ceil(child_total)).div_ceil(workers) as u32;
     let camp_hash = stable_hash(&cfg.name);
     let seed = ctx.seed;
     let want_samples = if ctx.samples.len() < 6 { 2 } else { 0 };
+    let known_sigs: Vec<String> = ctx.known.iter().map(|k| k.signature.clone()).collect();
+    let known_sigs = &known_sigs;
     let results: Vec<Vec<WorkerStats>> = std::thread::scope(|scope| {
         let mut handles = vec![];
         for w in 0..workers {
@@ -695,8 +729,8 @@ where
                         let mut remaining = per;
                         let mut restart = 0u32;
                         while remaining > 0 {
-                            let sb = derive_seed(seed, &[camp_hash, w as u64, restart as u64]);
-                            let st = run_one(sb, remaining, cfg.max_shrink_iters, strategy, test, want_samples);
+                            let sb = derive_seed(seed, &[camp_hash, w as u64, restart as u64, child_index, child_restart]);
+                            let st = run_one(sb, remaining, cfg.max_shrink_iters, strategy, test, want_samples, known_sigs);
                             remaining = remaining.saturating_sub(st.done_cases.max(1));
                             let failed = st.failure.is_some();
                             out.push(st);
@@ -728,6 +762,14 @@ where
                     ctx.samples.push(json!({"campaign": cfg.name, "case": s}));
                 }
             }
+            for (sig, n) in st.known_hits {
+                if !ctx.known_hits.contains_key(&sig) {
+                    if let Some(k) = ctx.is_known(&sig) {
+                        println!("KNOWN-FINDING: property={} {}", ctx.id, k.text);
+                    }
+                }
+                *ctx.known_hits.entry(sig).or_default() += n;
+            }
             if let Some((case, fail)) = st.failure {
                 ctx.record_failure(cfg.name, &case, &fail);
             }
@@ -741,6 +783,9 @@ where
     T: for<'de> Deserialize<'de> + Serialize,
     F: Fn(&T) -> CaseResult,
 {
+    if ctx.child.as_ref().map(|c| c.index != 0 || c.restart != 0).unwrap_or(false) {
+        return; // the regression tier runs once, in the first child
+    }
     for (path, rf) in list_replays(&ctx.id, campaign) {
         let case: T = match serde_json::from_value(rf.case.clone()) {
             Ok(c) => c,
